@@ -223,6 +223,11 @@ def clenshaw_qbfs(cs, usq, alphas=None):
     M = len(bs)-1
     prefix = 2 - 4 * x
     alphas[M] = bs[M]
+    if M == 0:
+        # a single term: alpha_1 is identically zero and is not stored
+        S = 2 * alphas[0]
+        return (x * (1 - x)) * S
+
     alphas[M-1] = bs[M-1] + prefix * alphas[M]
     for i in range(M-2, -1, -1):
         alphas[i] = bs[i] + prefix * alphas[i+1] - alphas[i+2]
